@@ -1,7 +1,7 @@
 """C19 - errors point at the offending node and a single fault is always reported there.
 
 Every fault of a 12-entry catalogue is applied at every node of (a) every valid instance, up to a node
-bound, of 14 small generated schemas and (b) every valid XML file of the repository test corpus.  Each
+bound, of 15 small generated schemas and (b) every valid XML file of the repository test corpus.  Each
 damaged document is validated through the public API from three kinds of source (text parsed by the
 library's default ElementTree parser, an lxml tree, an ElementTree element) and judged:
 
@@ -34,7 +34,7 @@ TITLE = 'Errors point at the offending node and a single fault is always reporte
 RULE = ('every fault of the catalogue {bad value, empty value, delete child, duplicate child, insert unknown child, '
         'move child one position, delete attribute, add undeclared attribute, bad attribute value, wrong fixed value '
         '(value doubled), text in element-only content, swap two non-adjacent siblings} at every node of every valid '
-        'instance (elements + attributes <= N) of 14 generated schemas (one of them XSD 1.1) and of every valid corpus file, x source kind '
+        'instance (elements + attributes <= N) of 15 generated schemas (one of them XSD 1.1) and of every valid corpus file, x source kind '
         '{text/default parser, lxml tree, ElementTree element}; an application the reference finds still valid is '
         'counted as not-a-fault, not judged; a case is non-trivial when its (schema, fault kind, damaged tag, '
         'source kind, error classes and their positions relative to the damage) signature is new; states = distinct '
